@@ -58,10 +58,11 @@ var (
 	reg      sync.Mutex // protects everything below; never held while blocking
 	abortCh  chan struct{}
 	aborted  bool
-	waiting  = map[int64]*waitRec{} // goid -> what it waits for
+	waiting  = map[int64]*waitRec{} // wait id -> what is waited for
 	Deadlock []DeadlockReport
 	nLockOps int64
 	gen      int64
+	waitSeq  int64
 )
 
 type waitRec struct {
@@ -70,8 +71,8 @@ type waitRec struct {
 }
 
 type DeadlockReport struct {
-	Kind   string   // "self" | "cycle"
-	Stacks []string // stack of each goroutine in the cycle at the time it blocked
+	Kind   string   // "stuck"
+	Stacks []string // stack of each stuck goroutine at the time it blocked
 }
 
 // Reset prepares the shim for a new execution; must be called from inside the
@@ -97,6 +98,12 @@ func Abort() {
 	}
 }
 
+// Stuck returns the stacks of goroutines that were (still) blocked on a shim
+// lock.  Called at the very end of an execution, after the incarnations were
+// killed and every timer had fired: whoever is still waiting then waits for a
+// lock whose holder can never release it — a deadlock, decided structurally.
+func Stuck() []string { return Waiters() }
+
 // Waiters returns the stacks of goroutines currently blocked on a shim lock.
 func Waiters() []string {
 	reg.Lock()
@@ -116,7 +123,7 @@ func TakeDeadlocks() []DeadlockReport {
 	return d
 }
 
-func LockOps() int64 { return atomic.LoadInt64(&nLockOps) }
+func LockOps() int64 { reg.Lock(); defer reg.Unlock(); return nLockOps }
 
 func goid() int64 {
 	var buf [64]byte
@@ -155,7 +162,6 @@ func (m *Mutex) chanLocked() chan struct{} {
 	if m.ch == nil || m.chGen != gen {
 		m.ch = make(chan struct{}, 1)
 		m.chGen = gen
-		m.owner = 0
 	}
 	return m.ch
 }
@@ -180,7 +186,6 @@ func (m *Mutex) TryLock() bool {
 		defer reg.Unlock()
 		select {
 		case m.chanLocked() <- struct{}{}:
-			m.owner = goid()
 			return true
 		default:
 			return false
@@ -197,7 +202,6 @@ func (m *Mutex) Unlock() {
 	case Bubble:
 		reg.Lock()
 		ch := m.chanLocked()
-		m.owner = 0
 		reg.Unlock()
 		select {
 		case <-ch:
@@ -210,73 +214,29 @@ func (m *Mutex) Unlock() {
 	}
 }
 
-// ownerOf returns the goroutine holding l (0 if free/unknown). reg must be held.
-func ownerOf(l any) int64 {
-	switch x := l.(type) {
-	case *Mutex:
-		return x.owner
-	case *RWMutex:
-		return x.wowner
-	}
-	return 0
-}
-
-// registerWait records that goroutine g blocks on l and reports a lock cycle
-// if one exists.  reg must be held.  Returns true when g must not block.
-func registerWait(g int64, l any) bool {
-	me := &waitRec{lock: l, stack: stack()}
-	// follow owner chain
-	stacks := []string{me.stack}
-	cur := ownerOf(l)
-	for steps := 0; cur != 0 && steps < 64; steps++ {
-		if cur == g {
-			kind := "cycle"
-			if len(stacks) == 1 {
-				kind = "self"
-			}
-			Deadlock = append(Deadlock, DeadlockReport{Kind: kind, Stacks: stacks})
-			return true
-		}
-		w, ok := waiting[cur]
-		if !ok {
-			break
-		}
-		stacks = append(stacks, w.stack)
-		cur = ownerOf(w.lock)
-	}
-	waiting[g] = me
-	return false
-}
-
 func (m *Mutex) lockBubble() {
-	atomic.AddInt64(&nLockOps, 1)
-	g := goid()
 	reg.Lock()
+	nLockOps++
 	ch := m.chanLocked()
 	select {
 	case ch <- struct{}{}:
-		m.owner = g
 		reg.Unlock()
 		return
 	default:
 	}
-	if registerWait(g, m) {
-		reg.Unlock()
-		// definitive deadlock: this goroutine can never proceed.
-		runtime.Goexit()
-	}
+	// contended: register as waiter (with the stack, for stuck-handler reports)
+	waitSeq++
+	id := waitSeq
+	waiting[id] = &waitRec{lock: m, stack: stack()}
 	ab := abortCh
 	reg.Unlock()
 	select {
 	case ch <- struct{}{}:
 		reg.Lock()
-		delete(waiting, g)
-		m.owner = g
+		delete(waiting, id)
 		reg.Unlock()
 	case <-ab:
-		reg.Lock()
-		delete(waiting, g)
-		reg.Unlock()
+		// end of execution: the waiter stays registered so that Stuck() can report it
 		runtime.Goexit()
 	}
 }
@@ -299,7 +259,6 @@ func (rw *RWMutex) syncGenLocked() {
 		rw.wake = nil
 		rw.readers = 0
 		rw.writer = false
-		rw.wowner = 0
 	}
 }
 
@@ -318,8 +277,7 @@ func (rw *RWMutex) broadcastLocked() {
 }
 
 func (rw *RWMutex) acquire(write bool) {
-	atomic.AddInt64(&nLockOps, 1)
-	g := goid()
+	var id int64
 	for {
 		reg.Lock()
 		rw.syncGenLocked()
@@ -328,7 +286,6 @@ func (rw *RWMutex) acquire(write bool) {
 			ok = !rw.writer && rw.readers == 0
 			if ok {
 				rw.writer = true
-				rw.wowner = g
 			}
 		} else {
 			ok = !rw.writer
@@ -337,15 +294,16 @@ func (rw *RWMutex) acquire(write bool) {
 			}
 		}
 		if ok {
-			delete(waiting, g)
+			if id != 0 {
+				delete(waiting, id)
+			}
 			reg.Unlock()
 			return
 		}
-		if _, already := waiting[g]; !already {
-			if registerWait(g, rw) {
-				reg.Unlock()
-				runtime.Goexit()
-			}
+		if id == 0 {
+			waitSeq++
+			id = waitSeq
+			waiting[id] = &waitRec{lock: rw, stack: stack()}
 		}
 		wk := rw.wakeLocked()
 		ab := abortCh
@@ -353,9 +311,6 @@ func (rw *RWMutex) acquire(write bool) {
 		select {
 		case <-wk:
 		case <-ab:
-			reg.Lock()
-			delete(waiting, g)
-			reg.Unlock()
 			runtime.Goexit()
 		}
 	}
@@ -383,7 +338,6 @@ func (rw *RWMutex) Unlock() {
 			panic("vsync: Unlock of unlocked RWMutex")
 		}
 		rw.writer = false
-		rw.wowner = 0
 		rw.broadcastLocked()
 		reg.Unlock()
 	case Sched:
